@@ -56,6 +56,10 @@ def main():
             ocases.append({'prog': A.to_oracle_prog(c['items']), 'file': c['file'], 'listing': None, 'use_syms': False})
             oidx.append(i)
     res = A.oracle(hv, ocases, d)
+    unread = [c['tag'] for c in cases if c['items'] is None and c['accept']]
+    ck.cov['accepted_sources_not_oracle_checked'] = unread[:20]        # sources tools/asmcommon.parse_asm cannot read: tie only
+    if unread and len(unread) * 2 > len([c for c in cases if c['accept']]):
+        ck.broken.append('the reader of assembly sources understands fewer than half of the accepted sources: the direct oracle is not judging')
     nfail = 0
     distinct = set()
     for j, i in enumerate(oidx):
